@@ -138,7 +138,7 @@ class ImportTargetCallee(Contract):
         return SRef(r, (Signal, Slice, Concat))
 
 
-def import_concat_obligations():
+def import_concat_obligations(max_arity=4):
     """import_concat(pconc, module): the imported concatenation's parts are the imports of the VLSIR parts in REVERSE
     order (VLSIR is most-significant first) - records of 1 to 4 parts (arity unrolled, parts symbolic)."""
     from pyvc import loader
@@ -146,7 +146,7 @@ def import_concat_obligations():
     ext = loader.extract(key)
     info = {"sha": ext.sha, "lines": ext.lines, "path": ext.path, "paths": 0, "scenarios": 0, "unsupported": []}
     obs = []
-    for arity in (1, 2, 3, 4):
+    for arity in range(1, max_arity + 1):
         schema = dict(SCHEMA_EXTRA)
         schema["Concat.parts"] = "py"
         eng = mk_engine(contracts=[ImportTargetCallee()], schema_extra=schema, field_classes=FIELD_CLASSES,
